@@ -18,13 +18,51 @@ verus! {
 
 #[verifier::external_body]
 pub struct Universal2DBox { _p: () }
+impl Universal2DBox {
+    // assumed: caching the polygon does not change the box as a value
+    #[verifier::external_body]
+    pub fn gen_vertices(&mut self) -> (r: &Self)
+        ensures *final(self) == *old(self), *r == *old(self),
+    { unimplemented!() }
+}
 #[verifier::external_body]
 pub struct F32x8 { _p: () }
+impl Clone for F32x8 {
+    #[verifier::external_body]
+    fn clone(&self) -> (r: Self) ensures r == *self { unimplemented!() }
+}
 pub type Feature = Vec<F32x8>;
+#[verifier::external_body]
+pub struct KalmanState<const X: usize> { _p: () }
+pub const DIM_2D_BOX_X2: usize = 10;
+#[verifier::external_body]
+#[verifier::reject_recursive_types(T)]
+pub struct RwLock<T> { _p: core::marker::PhantomData<T> }
+#[verifier::external_body]
+pub struct SpatioTemporalConstraints { _p: () }
+#[verifier::external_body]
+pub struct AnyhowError { _p: () }
+pub type Result<T> = core::result::Result<T, AnyhowError>;
+pub enum VotingType { Visual, Positional }
 
 //@PASTE-ITEM file=src/trackers/visual_sort/observation_attributes.rs anchor=`pub struct VisualObservationAttributes {` pubfields=yes
 
 impl VisualObservationAttributes {
+//@PASTE file=src/trackers/visual_sort/observation_attributes.rs anchor=`pub fn new(q: f32, b: Universal2DBox) -> Self {` result=r fn=VisualObservationAttributes::new
+        ensures r.visual_quality == q && r.bbox == Some(b) && r.own_area_percentage is None,
+//@END
+    // assumed (body asserts the share lies in [0,1] with a float range test Verus does not take)
+    #[verifier::external_body]
+    pub fn with_own_area_percentage(q: f32, b: Universal2DBox, own_area_percentage: f32) -> (r: Self)
+        ensures r.visual_quality == q && r.bbox == Some(b) && r.own_area_percentage == Some(own_area_percentage),
+    { unimplemented!() }
+//@PASTE file=src/trackers/visual_sort/observation_attributes.rs anchor=`pub fn unchecked_bbox_ref(&self) -> &Universal2DBox {` result=r fn=VisualObservationAttributes::unchecked_bbox_ref
+        requires self.bbox is Some,
+        ensures *r == self.bbox->Some_0,
+//@END
+//@PASTE file=src/trackers/visual_sort/observation_attributes.rs anchor=`pub fn own_area_percentage_opt(&self) -> &Option<f32> {` result=r fn=VisualObservationAttributes::own_area_percentage_opt
+        ensures *r == self.own_area_percentage,
+//@END
 //@PASTE file=src/trackers/visual_sort/observation_attributes.rs anchor=`pub fn drop_bbox(&mut self) {` fn=VisualObservationAttributes::drop_bbox
         ensures
             final(self).bbox is None && final(self).visual_quality == old(self).visual_quality //# C13/gallery.drop_bbox_clears_only_the_box
@@ -36,6 +74,20 @@ impl VisualObservationAttributes {
 }
 
 pub struct Observation<T>(pub Option<T>, pub Option<Feature>);
+impl<T> Observation<T> {
+//@PASTE file=src/track.rs anchor=`pub fn attr(&self) -> &Option<T> {` result=r fn=Observation::attr
+        ensures *r == self.0,
+//@END
+//@PASTE file=src/track.rs anchor=`pub fn attr_mut(&mut self) -> &mut Option<T> {` result=r fn=Observation::attr_mut
+        ensures *r == old(self).0, final(self).0 == *final(r), final(self).1 == old(self).1,
+//@END
+//@PASTE file=src/track.rs anchor=`pub fn feature(&self) -> &Option<Feature> {` result=r fn=Observation::feature
+        ensures *r == self.1,
+//@END
+//@PASTE file=src/track.rs anchor=`pub fn feature_mut(&mut self) -> &mut Option<Feature> {` result=r fn=Observation::feature_mut
+        ensures *r == old(self).1, final(self).1 == *final(r), final(self).0 == old(self).0,
+//@END
+}
 
 pub type Obs = Observation<VisualObservationAttributes>;
 
@@ -92,9 +144,46 @@ pub fn verif_sort_by_quality_desc(observations: &mut Vec<Obs>)
     unimplemented!()
 }
 
+
+//@PASTE-ITEM file=src/trackers/sort.rs anchor=`pub struct SortAttributesOptions {` pubfields=yes
+//@PASTE-ITEM file=src/trackers/visual_sort/track_attributes.rs anchor=`pub struct VisualAttributes {` pubfields=yes
+pub type VecDeque<T> = std::collections::VecDeque<T>;
+pub type HashMap<K, V> = std::collections::HashMap<K, V>;
+
+impl VisualAttributes {
+//@PASTE file=src/trackers/visual_sort/track_attributes.rs anchor=`pub fn update_history(` after=`impl VisualAttributes {` fn=VisualAttributes::update_history
+    requires
+        old(self).observed_boxes@.len() == old(self).predicted_boxes@.len(),
+        old(self).observed_boxes@.len() == old(self).observed_features@.len(),
+        old(self).track_length < usize::MAX,
+    ensures
+        final(self).track_length == old(self).track_length + 1,
+        final(self).observed_boxes@.len() == final(self).predicted_boxes@.len()
+            && final(self).observed_boxes@.len() == final(self).observed_features@.len(),
+        final(self).observed_features@.last() == observation_feature,
+        final(self).visual_features_collected_count == old(self).visual_features_collected_count,
+//@END
+
+    // assumed frame of the Kalman step (TrackAttributesKalmanPrediction::make_prediction): it only
+    // replaces the filter state
+    #[verifier::external_body]
+    pub fn make_prediction(&mut self, observation_bbox: &Universal2DBox) -> (r: Universal2DBox)
+        ensures
+            final(self).observed_boxes == old(self).observed_boxes && final(self).predicted_boxes == old(self).predicted_boxes
+                && final(self).observed_features == old(self).observed_features && final(self).track_length == old(self).track_length
+                && final(self).visual_features_collected_count == old(self).visual_features_collected_count
+                && final(self).opts == old(self).opts,
+    { unimplemented!() }
+}
+
+impl Clone for Universal2DBox {
+    #[verifier::external_body]
+    fn clone(&self) -> (r: Self) ensures r == *self { unimplemented!() }
+}
+
 //@PASTE-ITEM file=src/trackers/visual_sort/metric.rs anchor=`pub struct VisualMetricOptions {`
 #[verifier::external_body] pub struct VisualSortMetricType { _p: () }
-#[verifier::external_body] pub struct PositionalMetricType { _p: () }
+//@PASTE-ITEM file=src/trackers/sort.rs anchor=`pub enum PositionalMetricType {`
 pub struct Arc<T> { pub inner: T }
 impl<T> core::ops::Deref for Arc<T> {
     type Target = T;
@@ -127,6 +216,58 @@ impl VisualMetric {
 //@WRAPTEXT `observations.iter_mut().for_each(|f| { if let Some(e) = &mut f.attr_mut() { e.drop_bbox(); } });` => `verif_drop_all_bboxes(observations);`
 //@WRAPTEXT `observations.sort_by(|e1, e2| { e2.attr() .as_ref() .unwrap() .visual_quality() .partial_cmp(&e1.attr().as_ref().unwrap().visual_quality()) .unwrap() });` => `verif_sort_by_quality_desc(observations);`
 //@END
+    /// usability of a feature (box, quality, minimal quality, own-area share, minimal share): uninterpreted here;
+    /// the real predicate's contract is the C12/C13 Kani obligation feature_can_be_used.all_three_thresholds_at_or_above
+    pub uninterp spec fn spec_can_use(&self, bbox: Universal2DBox, q: f32, min_q: f32, share: Option<f32>, min_share: f32) -> bool;
+
+    #[verifier::external_body]
+    fn feature_can_be_used(&self, bbox_opt: &Option<&Universal2DBox>, feature_quality: f32, visual_minimal_quality: f32,
+        visual_own_area_percentage: &Option<f32>, visual_minimal_area_percentage: f32) -> (r: bool)
+        requires *bbox_opt is Some,
+        ensures r == self.spec_can_use(*bbox_opt->Some_0, feature_quality, visual_minimal_quality, *visual_own_area_percentage, visual_minimal_area_percentage),
+    { unimplemented!() }
+
+//@PASTE file=src/trackers/visual_sort/metric.rs anchor=`fn optimize(` after=`impl ObservationMetric<VisualAttributes, VisualObservationAttributes> for VisualMetric {` result=r fn=<VisualMetric-as-ObservationMetric>::optimize
+    requires
+        old(observations)@.len() >= 1,
+        forall|i: int| 0 <= i < old(observations)@.len() ==> (#[trigger] old(observations)@[i]).0 is Some,
+        old(observations)@.last().0->Some_0.bbox is Some,
+        old(self).opts.inner.visual_max_observations >= 1,
+        old(attrs).observed_boxes@.len() == old(attrs).predicted_boxes@.len(),
+        old(attrs).observed_boxes@.len() == old(attrs).observed_features@.len(),
+        old(attrs).track_length < usize::MAX,
+    ensures
+        //@VACUITY
+        r is Ok, //# C13/gallery.optimize.never_fails
+        ({ let newest = old(observations)@.last(); let a = newest.0->Some_0; //# C13/gallery.optimize.feature_taken_only_if_collect_thresholds_met
+           final(observations)@.len() >= 1 && final(observations)@[0].1 == (
+               if is_merge && !old(self).spec_can_use(a.bbox->Some_0, a.visual_quality, old(self).opts.inner.visual_minimal_quality_collect,
+                        a.own_area_percentage, old(self).opts.inner.visual_minimal_own_area_percentage_collect)
+               { None::<Feature> } else { newest.1 }) }),
+        ({ let a = old(observations)@.last().0->Some_0; //# C13/gallery.optimize.newest_first_keeps_quality_and_share
+           final(observations)@[0].0 is Some && final(observations)@[0].0->Some_0.visual_quality == a.visual_quality
+               && final(observations)@[0].0->Some_0.own_area_percentage == a.own_area_percentage }),
+        final(attrs).visual_features_collected_count == final(observations)@.filter(|o: Obs| featured(o)).len(), //# C13/gallery.optimize.collected_count_is_number_stored
+        ({ let k = old(observations)@.drop_last().filter(|o: Obs| featured(o)).len(); //# C13/gallery.optimize.size_after
+           final(observations)@.len() == (if k >= old(self).opts.inner.visual_max_observations { (k - 1) as nat } else { k }) + 1 }),
+        old(observations)@.drop_last().filter(|o: Obs| featured(o)).len() <= old(self).opts.inner.visual_max_observations //# C13/gallery.optimize.at_most_max_entries
+            ==> final(observations)@.len() <= old(self).opts.inner.visual_max_observations,
+        final(attrs).track_length == old(attrs).track_length + 1, //# C13/gallery.optimize.track_length_plus_one
+//@WRAPTEXT `observations .iter() .filter(|f| f.feature().is_some()) .count()` => `verif_count_featured(observations)`
+//@END
+}
+
+// assumed std specification: slice::swap exchanges two elements
+pub assume_specification<T> [<[T]>::swap] (s: &mut [T], a: usize, b: usize)
+    requires a < old(s)@.len(), b < old(s)@.len(),
+    ensures final(s)@ == old(s)@.update(a as int, old(s)@[b as int]).update(b as int, old(s)@[a as int]);
+
+// wrapper (assumed): number of feature-bearing entries
+#[verifier::external_body]
+pub fn verif_count_featured(observations: &Vec<Obs>) -> (r: usize)
+    ensures r == observations@.filter(|o: Obs| featured(o)).len(),
+{
+    observations.iter().filter(|f| f.1.is_some()).count()
 }
 
 } // verus!
